@@ -107,6 +107,15 @@ def fixed_cases(d):
     out.append({"k": "program", "prog": p.prog(dialect=d, fixed="multi-clause-select"), "tgt": q.i})
     so = p.call(p.call(q, "union", p.call(p.call(p.call(Q, "from_", u), "select", 1, 2, "three", 4.5), "where", p.bin("!=", p.call(u, "field", "a"), "uv"))), "limit", 3)
     out.append({"k": "program", "prog": p.prog(dialect=d, fixed="set-operation"), "tgt": so.i})
+    # constants in the set operation's own ORDER BY (expression, function argument, CASE), before its LIMIT / OFFSET values
+    so2 = p.call(p.call(p.call(Q, "from_", t), "select", p.call(t, "field", "a")), "union_all",
+                 p.call(p.call(p.call(Q, "from_", u), "select", p.call(u, "field", "a")), "where", p.bin("==", p.call(u, "field", "b"), "w")))
+    so2 = p.call(so2, "orderby", p.bin("+", p.call(t, "field", "a"), 5), p.new("fn.Coalesce", p.call(t, "field", "a"), "zz"))
+    so2 = p.call(so2, "orderby", p.call(p.call(p.new("Case"), "when", p.bin("==", p.call(t, "field", "a"), "k"), 1), "else_", 2))
+    so2 = p.call(p.call(so2, "limit", 7), "offset", 3)
+    out.append({"k": "program", "prog": p.prog(dialect=d, fixed="set-operation-orderby-constants"), "tgt": so2.i})
+    emb = p.call(p.call(p.call(Q, "from_", p.call(so2, "as_", "u1")), "select", "a"), "where", p.bin(">", p.call(p.call(so2, "as_", "u1"), "field", "a"), 9))
+    out.append({"k": "program", "prog": p.prog(dialect=d, fixed="set-operation-orderby-constants-embedded"), "tgt": emb.i})
     p = P()
     t = p.new("Table", "t1")
     ins = p.call(p.call(p.call(Q, "into", t), "columns", "id", "a", "b"), "insert", (1, "x", 2.5), (2, None, True))
